@@ -6,7 +6,7 @@ use vbase::gens::{self, DocParams};
 use vbase::refjson::{self, classify_number, show_bytes, trunc, Kind, Node, NumClass};
 use vbase::{ensure, fail};
 
-pub const RULE: &str = "cases are well-formed JSON texts t (generated with duplicate keys, escapes, every number class, layout variation; golden documents; corpus files). v = parse(t), s = to_string(v): parse(s) == v, to_string(parse(s)) == s byte for byte, the reference trees of s and t have identical key sequences at every object (order and duplicates kept), every integer-class literal reappears with its canonical digits, every float keeps its f64 bits, strings keep their decoded text; Display, to_string and to_vec agree; pretty output re-parses to v and equals reindent(s). In the sort_keys build every object's members are the stable sort of the source members by key (ascending, members sharing a key keep their order); in raw-number mode (use_rawnumber / arbitrary_precision build) every number token of s is byte-identical to the literal in t. Non-trivial = an object with >= 2 members or a float needing >= 15 significant digits; distinct by text.";
+pub const RULE: &str = "cases are well-formed JSON texts t (generated with duplicate keys, escapes, every number class, layout variation; golden documents; corpus files). v = parse(t), s = to_string(v): parse(s) == v, to_string(parse(s)) == s byte for byte, the reference trees of s and t have identical key sequences at every object (order and duplicates kept), every integer-class literal reappears with its canonical digits, every float keeps its f64 bits, strings keep their decoded text; Display, to_string and to_vec agree; the same text read as Vec<Value> element, map value and later stream document serializes to the same bytes; documents nested 20..=122 levels deep with two or more members per level; pretty output re-parses to v and equals reindent(s). In the sort_keys build every object's members are the stable sort of the source members by key (ascending, members sharing a key keep their order); in raw-number mode (use_rawnumber / arbitrary_precision build) every number token of s is byte-identical to the literal in t. Non-trivial = an object with >= 2 members or a float needing >= 15 significant digits; distinct by text.";
 pub const ASSUMPTIONS: &[&str] = &["refjson parser", "Rust std float parsing"];
 
 /// compare the reference trees of source t and output s
@@ -169,6 +169,35 @@ pub fn oracle(t: &[u8], obs: &mut Obs) -> Result<(), Fail> {
         ensure!(p.as_bytes() == refjson::reindent(sb), format!("C06/{mode}/pretty"), "pretty output is not the re-indented compact output: {:?}", trunc(&p, 300));
         let vp: Value = if raw && !arbp { Deserializer::from_slice(p.as_bytes()).use_rawnumber().deserialize() } else { sonic_rs::from_str(&p) }.map_err(|e| Fail::new(format!("C06/{mode}/pretty-reparse"), format!("{e}")))?;
         ensure!(vp == v, format!("C06/{mode}/pretty-reparse"), "pretty output re-parses to a different value for {:?}", show_bytes(t, 200));
+        // the same text read as an element of Vec<Value>, as a map value and as a later stream document
+        // (copying parser, scalars included) serializes to the same bytes
+        {
+            let mut w = b"[".to_vec();
+            w.extend_from_slice(t);
+            w.extend_from_slice(b" , ");
+            w.extend_from_slice(t);
+            w.extend_from_slice(b"]");
+            let vs: Vec<Value> = if raw && !arbp { Deserializer::from_slice(&w).use_rawnumber().deserialize() } else { sonic_rs::from_slice(&w) }.map_err(|e| Fail::new(format!("C06/{mode}/rejects-valid"), format!("Vec<Value> of two copies of {:?}: {e}", show_bytes(t, 300))))?;
+            for (i, x) in vs.iter().enumerate() {
+                let sx = sonic_rs::to_string(x).map_err(|e| Fail::new(format!("C06/{mode}/ser-error"), format!("{e}")))?;
+                ensure!(sx == s, format!("C06/{mode}/embedded-differs"), "element {i} of Vec<Value> parsed from two copies of {:?} serializes to {:?}, the whole-input parse to {:?}", show_bytes(t, 300), trunc(&sx, 300), trunc(&s, 300));
+            }
+            let mut w = b"{\"m\": ".to_vec();
+            w.extend_from_slice(t);
+            w.extend_from_slice(b"}");
+            let m: std::collections::BTreeMap<String, Value> = if raw && !arbp { Deserializer::from_slice(&w).use_rawnumber().deserialize() } else { sonic_rs::from_slice(&w) }.map_err(|e| Fail::new(format!("C06/{mode}/rejects-valid"), format!("map value {:?}: {e}", show_bytes(t, 300))))?;
+            let sx = sonic_rs::to_string(&m["m"]).map_err(|e| Fail::new(format!("C06/{mode}/ser-error"), format!("{e}")))?;
+            ensure!(sx == s, format!("C06/{mode}/embedded-differs"), "map value parsed from {:?} serializes to {:?}, the whole-input parse to {:?}", show_bytes(t, 300), trunc(&sx, 300), trunc(&s, 300));
+            let mut w = b"0 ".to_vec();
+            w.extend_from_slice(t);
+            // (the arbitrary_precision feature switches the from_* functions to raw numbers, not a
+            // Deserializer built by hand: ask for the mode explicitly)
+            let mut de = if raw { Deserializer::from_slice(&w).use_rawnumber() } else { Deserializer::from_slice(&w) };
+            let _ = de.deserialize::<Value>();
+            let x: Value = de.deserialize().map_err(|e| Fail::new(format!("C06/{mode}/rejects-valid"), format!("second stream document {:?}: {e}", show_bytes(t, 300))))?;
+            let sx = sonic_rs::to_string(&x).map_err(|e| Fail::new(format!("C06/{mode}/ser-error"), format!("{e}")))?;
+            ensure!(sx == s, format!("C06/{mode}/embedded-differs"), "second stream document {:?} serializes to {:?}, the whole-input parse to {:?}", show_bytes(t, 300), trunc(&sx, 300), trunc(&s, 300));
+        }
         // a clone serializes identically
         ensure!(sonic_rs::to_string(&v.clone()).ok().as_deref() == Some(s.as_str()), format!("C06/{mode}/clone"), "clone serializes differently for {:?}", show_bytes(t, 200));
     }
@@ -201,6 +230,8 @@ pub fn run(ctx: &Ctx) {
         out.push(b'}');
         out
     });
+    // deep nesting with two or more members per level (separators and indentation at depth)
+    ctx.search(s, "deep", ctx.n(6_000, 60_000), 200, &|src: &mut Src| gens::gen_deep(src));
     // wide objects (more members than any small-sort cutoff), keys from a small pool so that many repeat
     ctx.search(s, "wide-objects", ctx.n(60_000, 600_000), 400, &|src: &mut Src| {
         let n = *src.pick(&[21usize, 22, 24, 30, 33, 40, 64, 65, 100]) + src.below(4);
